@@ -1,6 +1,6 @@
 (* C08: the statements of Properties.v (kept readable here) and an instance showing that the hypotheses are satisfiable. *)
 From Coq Require Import List Arith Lia Setoid Morphisms Ring Bool ZArith.
-From C08 Require Import Model Spec ProofsBasic ProofsKara ProofsDiv ProofsSqr ProofsNewton ProofsGcd ProofsPow.
+From C08 Require Import Model Spec ProofsBasic ProofsKara ProofsDiv ProofsSqr ProofsNewton ProofsRev ProofsDivDeg ProofsGcd ProofsEuclid ProofsPow ProofsInvmod ProofsModin ProofsMid ProofsMisc ProofsMisc2 ProofsPdiv ProofsNormal.
 Import ListNotations.
 
 Section Stmts.
@@ -21,11 +21,14 @@ Definition KaraRange_stmt := forall fuel thr n P Q, 1 <= thr ->
 Definition Mul_stmt := forall thr P Q, 1 <= thr -> peq (mul D thr P Q) (pmul P Q) /\ normal D (mul D thr P Q).
 Definition Stdmul_stmt := forall P Q, peq (stdmul D P Q) (pmul P Q).
 Definition Karamul_stmt := forall thr P Q, 1 <= thr -> 2 <= length P -> 2 <= length Q -> peq (karamul D thr P Q) (pmul P Q).
-(* S5: division.  Full statement: A = B*Q + R and deg R < deg B for B <> 0.  Proved: the identity (for all A, B, also B = 0);
-   the degree bound rests on the Newton inverse and stays correspondence-tested. *)
-Definition Division_stmt := forall kthr sthr A B, 1 <= kthr -> isZero D B = false ->
-  let '(Q, R) := divmod D kthr sthr A B in
-  peq A (add D (pmul B Q) R) /\ (degree D R < degree D B)%Z.
+(* S5: division.  Full statement (proved): for B <> 0, divmod / divmodin return (Q,R) with A = B*Q + R and deg R < deg B, and
+   deg mod(A,B) < deg B - every pair of thresholds >= 1.  (The fast division: reverse, Newton inverse of rev B modulo X^l,
+   truncated product, reverse; the proof reindexes the convolution sum of the reversed vectors, ProofsRev.rev_pmul.)
+   DivisionIdentity_stmt keeps the identity alone, which also holds for B = 0 and without the squaring threshold. *)
+Definition Division_stmt := forall kthr sthr A B, 1 <= kthr -> 1 <= sthr -> isZero D B = false ->
+  (let '(Q, R) := divmod D kthr sthr A B in peq A (add D (pmul B Q) R) /\ (degree D R < degree D B)%Z) /\
+  (let '(Q, R) := divmodin D kthr sthr A B in peq A (add D (pmul B Q) R) /\ (degree D R < degree D B)%Z) /\
+  (degree D (mod_ D kthr sthr A B) < degree D B)%Z.
 Definition DivisionIdentity_stmt := forall kthr sthr A B, 1 <= kthr ->
   (let '(Q, R) := divmod D kthr sthr A B in peq A (add D (pmul B Q) R)) /\
   (let '(Q, R) := divmodin D kthr sthr A B in peq A (add D (pmul B Q) R)).
@@ -39,13 +42,6 @@ Definition AddSub_stmt := forall P Q,
   (normal D P -> normal D Q -> normal D (add_pub D P Q) /\ normal D (sub_pub D P Q)).
 (* the entrywise add without the final setdegree (the code before the repair) does NOT keep normal forms *)
 Definition RawAddNormal_stmt := forall P Q, normal D P -> normal D Q -> normal D (add D P Q).
-(* S9: modular powering, exponent universally quantified.  Full statement: powmod P e U = P^e mod U.  Proved (partial): for EVERY
-   e >= 1 the result is congruent to the e-fold product P*...*P modulo U (U = the stripped modulus), GIVEN the two step facts
-   that are only correspondence-tested: sqr A = A*A and modin(A,U) = A up to a multiple of U.  Products and the reduction
-   `mod` inside the loop are covered by the proved Karatsuba and division-identity theorems. *)
-Definition PowmodCong_stmt := forall kthr sthr P U0 (e : positive), 1 <= kthr -> 1 <= sthr ->
-  (forall A, cong D (setdegree D U0) (modin D A (setdegree D U0)) A) ->
-  cong D (setdegree D U0) (powmod D kthr sthr P (Npos e) U0) (pun D P (Pos.to_nat e)).
 (* S10: the dedicated squaring (stdsqr, sqrrec on ranges) = schoolbook square, every pair of thresholds >= 1 *)
 Definition Sqr_stmt := forall kthr sthr P, 1 <= kthr -> 1 <= sthr -> peq (sqr D kthr sthr P) (pmul P P).
 (* S11: Newton inversion: A * invmodpowx(A,l) = 1 mod X^l for every l and every A with A[0] <> 0 *)
@@ -61,10 +57,114 @@ Definition GcdDivides_stmt := forall kthr sthr fuel F G S0 S1 T0 T1, 1 <= kthr -
 Definition LcmMultiple_stmt := forall kthr sthr A B, 1 <= kthr -> (1 <= degree D A)%Z -> (1 <= degree D B)%Z ->
   isZero D (lcm_loop_G D kthr sthr A B) = true ->
   dvd D A (lcm D kthr sthr A B) /\ dvd D B (lcm D kthr sthr A B).
+(* S14: the protected squaring on ranges (dynamic choice stdsqr / sqrrec, container of cP entries for the temporary) *)
+Definition SqrRange_stmt := forall fuel kthr sthr cP P, 1 <= kthr -> 1 <= sthr -> 1 <= length P -> length P <= S cP ->
+  let R := sqr_r D fuel kthr sthr cP (2 * length P - 1) P in
+  length R = (2 * length P - 1)%nat /\ forall i, i < 2 * length P - 1 -> coef D R i = coef D (pmul P P) i.
+(* S15: extended gcd, unconditional: the loop ends within its fuel (deg R < deg B), so F divides A and B, every common divisor
+   divides F, and F = S0*A + T0*B *)
+Definition GcdExt_stmt := forall kthr sthr A B, 1 <= kthr -> 1 <= sthr ->
+  let '(F, S0, T0) := gcdext D kthr sthr A B in
+  is_gcd D F A B /\ peq F (add D (pmul S0 A) (pmul T0 B)).
+(* S16: gcd(G,P,Q) (plain Euclidean loop on mod) returns a greatest common divisor *)
+Definition Gcd_stmt := forall kthr sthr P Q, 1 <= kthr -> 1 <= sthr -> is_gcd D (gcd D kthr sthr P Q) P Q.
+(* S17: lcm, unconditional (deg A, deg B >= 1) *)
+Definition Lcm_stmt := forall kthr sthr A B, 1 <= kthr -> 1 <= sthr -> (1 <= degree D A)%Z -> (1 <= degree D B)%Z ->
+  dvd D A (lcm D kthr sthr A B) /\ dvd D B (lcm D kthr sthr A B).
+(* S18: modular inverse: for coprime A, B of degree >= 1, invmod(A,B) * A = 1 mod B *)
+Definition Invmod_stmt := forall kthr sthr A B, 1 <= kthr -> 1 <= sthr -> (1 <= degree D A)%Z -> (1 <= degree D B)%Z ->
+  (forall X, dvd D X A -> dvd D X B -> dvd D X [d1 D]) ->
+  cong D B (pmul (invmod D kthr sthr A B) A) [d1 D].
+(* S19: the in-place remainder modin(A,B) for B in normal form (the precondition of the code), B <> 0 *)
+Definition Modin_stmt := forall A B, normal D B -> B <> [] ->
+  cong D B (modin D A B) A /\ (degree D (modin D A B) < degree D B)%Z.
+(* S20: powmod, unconditional: EVERY exponent e >= 0, U <> 0: the result is congruent to the e-fold product modulo U and, for e <> 0
+   or deg U >= 1 or the repaired initialisation `mod(W,one,U)` (e0red = true), of degree < deg U - i.e. it IS the remainder of P^e
+   by U (the code as written returns 1 for e = 0 also when U is a non-zero constant: see Powmod_e0_unit_stmt) *)
+Definition Powmod_stmt := forall kthr sthr e0red P U0 (e : N), 1 <= kthr -> 1 <= sthr -> isZero D U0 = false ->
+  cong D (setdegree D U0) (powmod D kthr sthr e0red P e U0) (pun D P (N.to_nat e)) /\
+  (e0red = true \/ e <> 0%N \/ (1 <= degree D U0)%Z -> (degree D (powmod D kthr sthr e0red P e U0) < degree D U0)%Z).
+(* e0red = false is the code as written (`assign(W,one)`); the check reads which form /repo has and runs the model accordingly *)
+Definition Powmod_e0_unit_stmt := forall kthr sthr P U0, isZero D U0 = false ->
+  (degree D (powmod D kthr sthr false P 0%N U0) < degree D U0)%Z.
+(* S21: the middle product MP(P,Q) = coefficients |Q|-1 .. |P|-1 of P*Q (precondition of the code: 1 <= |Q| <= |P|): the dispatching
+   midmul, the forced schoolbook form and the forced first Karatsuba level (balanced, |P| = 2|Q|-1), for EVERY threshold *)
+Definition Midmul_stmt := forall thr P Q, 1 <= length Q -> length Q <= length P ->
+  (forall j, coef D (midmul D thr P Q) j = if (j <? length P - length Q + 1)%nat then coef D (pmul P Q) (length Q - 1 + j) else d0 D) /\
+  (forall j, coef D (stdmidmul D P Q) j = if (j <? length P - length Q + 1)%nat then coef D (pmul P Q) (length Q - 1 + j) else d0 D) /\
+  (length P = (2 * length Q - 1)%nat ->
+   forall j, coef D (karamidmul D thr P Q) j = if (j <? length Q)%nat then coef D (pmul P Q) (length Q - 1 + j) else d0 D).
+(* S22: pow(W,P,n) is the n-fold product, in normal form, for every n *)
+Definition Pow_stmt := forall kthr P (n : N), 1 <= kthr -> eqv D (pow D kthr P n) (pun D P (N.to_nat n)) /\ normal D (pow D kthr P n).
+(* S23: the fused forms axpy/axpyin/maxpy/maxpyin/axmy/axmyin with polynomial and with scalar multiplier *)
+Definition Fused_stmt := forall kthr, 1 <= kthr -> forall (a x y r : list T) (s : T),
+  eqv D (axpy D kthr a x y) (add D (pmul a x) y) /\ eqv D (axpyin D kthr r a x) (add D (pmul a x) r) /\
+  eqv D (maxpy D kthr a x y) (sub D y (pmul a x)) /\ eqv D (maxpyin D kthr r a x) (sub D r (pmul a x)) /\
+  eqv D (axmy D kthr a x y) (sub D (pmul a x) y) /\ eqv D (axmyin D kthr r a x) (sub D (pmul a x) r) /\
+  eqv D (axpy_s D s x y) (add D (pmul [s] x) y) /\ eqv D (axpyin_s D r s x) (add D (pmul [s] x) r) /\
+  eqv D (maxpyin_s D r s x) (sub D r (pmul [s] x)) /\
+  eqv D (axmy_s D s x y) (sub D (pmul [s] x) y) /\ eqv D (axmyin_s D r s x) (sub D (pmul [s] x) r).
+(* S24: the scalar forms *)
+Definition Scalar_stmt := forall (P : list T) (v : T),
+  eqv D (add_s D P v) (add D P [v]) /\ eqv D (addin_s D P v) (add D P [v]) /\
+  eqv D (sub_s D P v) (sub D P [v]) /\ eqv D (subin_s D P v) (sub D P [v]) /\ eqv D (s_sub D v P) (sub D [v] P) /\
+  eqv D (mul_s D P v) (pmul [v] P) /\ eqv D (div_s D P v) (pmul [dinv D v] P).
+(* S25: evaluation = sum P[i] v^i (Horner), derivative, reversal, composition with X^b, truncated product *)
+Definition EvalDiffRev_stmt := forall P v i,
+  eval D P v = peval D P v /\ coef D (diff D P) i = dmul D (coef D P (S i)) (natT D (S i)) /\
+  coef D (reverse D P) i = (if (i <? length P)%nat then coef D P (length P - 1 - i) else d0 D) /\
+  (forall b, 1 <= b -> coef D (power_compose D P b) i = if (Nat.modulo i b =? 0)%nat then coef D P (Nat.div i b) else d0 D).
+Definition MulTrunc_stmt := forall P Q v d i,
+  coef D (mul_trunc D P Q v d) i = if (i <? d - v + 1)%nat then coef D (pmul P Q) (i + v) else d0 D.
+(* S26: divmod returns THE quotient and remainder: any (Q',R') with A = B*Q' + R', deg R' < deg B agrees with it *)
+Definition DivmodUnique_stmt := forall kthr sthr A B Q' R', 1 <= kthr -> 1 <= sthr -> isZero D B = false ->
+  eqv D A (add D (pmul B Q') R') -> (degree D R' < degree D B)%Z ->
+  eqv D (fst (divmod D kthr sthr A B)) Q' /\ eqv D (snd (divmod D kthr sthr A B)) R'.
+(* S27: areEqual decides coefficientwise equality (operands with leading zeros included), isDivisor decides divisibility *)
+Definition Decide_stmt := forall kthr sthr P Q, 1 <= kthr -> 1 <= sthr ->
+  (areEqual D P Q = true <-> peq P Q) /\ (isDivisor D kthr sthr P Q = true <-> dvd D Q P).
+(* S28: pseudo-division (the code as repaired by fix-4/5/6): m*A = B*Q + R, deg R < deg B, m a power of lc(B); pmod returns a
+   remainder with m*A - R a multiple of B *)
+Definition Pdivmod_stmt := forall A B, isZero D B = false ->
+  (let '(Q, R, m) := pdivmod D A B in
+   eqv D (pmul [m] A) (add D (pmul B Q) R) /\ (degree D R < degree D B)%Z /\ exists k, m = dom_pow D (leadcoef D B) k) /\
+  (let '(R, m) := pmod D A B in
+   (exists K, eqv D (pmul [m] A) (add D (pmul B K) R)) /\ (degree D R < degree D B)%Z /\ exists k, m = dom_pow D (leadcoef D B) k).
+(* S29: results are normalised: every polynomial result of the public operations has no leading zero coefficient (for the forms
+   that hand an operand through - maxpy and the in-place subtracting forms - when that operand is in normal form; add/sub: AddSub_stmt;
+   pow: Pow_stmt; sqr has no final setdegree in the code and is not listed) *)
+Definition NormalResults_stmt := forall kthr sthr e0 (A B C : list T) (v : T) (e : N) (n b l i j : nat),
+  normal D (mul D kthr A B) /\ normal D (stdmul D A B) /\ normal D (karamul D kthr A B) /\ normal D (mulin D kthr A B) /\
+  normal D (midmul D kthr A B) /\ normal D (mul_trunc D A B i j) /\
+  normal D (div D kthr sthr A B) /\ normal D (fst (divmod D kthr sthr A B)) /\ normal D (snd (divmod D kthr sthr A B)) /\
+  normal D (fst (divmodin D kthr sthr A B)) /\ normal D (snd (divmodin D kthr sthr A B)) /\ normal D (mod_ D kthr sthr A B) /\
+  normal D (modin D A B) /\ normal D (gcd D kthr sthr A B) /\
+  (let '(F, S0, T0) := gcdext D kthr sthr A B in normal D F /\ normal D S0 /\ normal D T0) /\
+  normal D (invmod D kthr sthr A B) /\ normal D (lcm D kthr sthr A B) /\ normal D (powmod D kthr sthr e0 A e B) /\
+  (let '(Q, R, m) := pdivmod D A B in normal D Q /\ normal D R) /\ normal D (fst (pmod D A B)) /\
+  normal D (axpy D kthr A B C) /\ normal D (axpyin D kthr C A B) /\ normal D (axmy D kthr A B C) /\ normal D (axpy_s D v B C) /\
+  normal D (axmy_s D v B C) /\ (normal D C -> normal D (maxpy D kthr A B C)) /\
+  (normal D C -> normal D (maxpyin D kthr C A B) /\ normal D (axmyin D kthr C A B) /\ normal D (maxpyin_s D C v B) /\ normal D (axmyin_s D C v B)) /\
+  normal D (add_s D A v) /\ normal D (addin_s D A v) /\ normal D (sub_s D A v) /\ normal D (subin_s D A v) /\ normal D (s_sub D v A) /\
+  normal D (mul_s D A v) /\ normal D (div_s D A v) /\ normal D (diff D A) /\ normal D (reverse D A) /\ normal D (power_compose D A b) /\
+  normal D (modpowx D A l) /\ normal D (assign D A) /\ normal D (monomial D n v).
 (* S7: setdegree keeps the polynomial, returns a normal form, and the zero polynomial is recognised *)
 Definition Normal_stmt := forall P,
   peq (setdegree D P) P /\ normal D (setdegree D P) /\ (isZero D P = true <-> peq P []).
 End Stmts.
+
+(* ---- the statements as they appear in Properties.v (bundled: one theorem per group of operations) *)
+Section Bundles.
+Context {T : Type} (D : Dom T).
+Definition Products_stmt := Mul_stmt D /\ Stdmul_stmt D /\ Karamul_stmt D.
+Definition Squaring_stmt := Sqr_stmt D /\ SqrRange_stmt D.
+Definition MidTrunc_stmt := Midmul_stmt D /\ MulTrunc_stmt D.
+Definition DivisionAll_stmt := DivisionIdentity_stmt D /\ Division_stmt D /\ DivmodUnique_stmt D /\ Modin_stmt D.
+Definition Euclid_stmt := GcdExt_stmt D /\ Gcd_stmt D /\ Lcm_stmt D /\ Invmod_stmt D.
+Definition Powers_stmt := Pow_stmt D /\ Powmod_stmt D.
+Definition Linear_stmt := AddSub_stmt D /\ Scalar_stmt D /\ Fused_stmt D.
+Definition NormalDecide_stmt := Normal_stmt D /\ Decide_stmt D /\ NormalResults_stmt D.
+End Bundles.
 
 Section Lemmas.
 Context {T : Type} (D : Dom T) (OK : FieldOK D).
@@ -89,17 +189,93 @@ Proof.
   intros P Q. split. apply (add_pub_peq D OK). split. apply eqv_peq. apply (sub_pub_eqv D OK).
   intros HP HQ. split. apply (add_pub_normal D OK); assumption. apply (sub_pub_normal D OK); assumption.
 Qed.
-Lemma PowmodCong_ok : PowmodCong_stmt D. Proof. exact (powmod_cong_sqr D OK). Qed.
 Lemma Sqr_ok : Sqr_stmt D. Proof. exact (sqr_spec D OK). Qed.
 Lemma Newton_ok : Newton_stmt D.
 Proof. intros kthr sthr A l Hk Hs HA. exact (invmodpowx_spec D OK kthr sthr Hk Hs A l HA). Qed.
 Lemma GcdDivides_ok : GcdDivides_stmt D.
 Proof. intros kthr sthr fuel F G S0 S1 T0 T1 Hk. exact (egcd_loop_dvd D OK kthr sthr Hk fuel F G S0 S1 T0 T1). Qed.
 Lemma LcmMultiple_ok : LcmMultiple_stmt D. Proof. exact (lcm_common_multiple D OK). Qed.
+Lemma Division_ok : Division_stmt D.
+Proof.
+  intros kthr sthr A B Hk Hs HZ. split; [|split].
+  - pose proof (divmod_identity D OK kthr sthr A B Hk) as E. pose proof (divmod_degree D OK kthr sthr Hk Hs A B HZ) as G.
+    destruct (divmod D kthr sthr A B). split; assumption.
+  - pose proof (divmodin_identity D OK kthr sthr A B Hk) as E. pose proof (divmodin_degree D OK kthr sthr Hk Hs A B HZ) as G.
+    destruct (divmodin D kthr sthr A B). split; assumption.
+  - apply (divmod_degree D OK kthr sthr Hk Hs A B HZ).
+Qed.
+Lemma SqrRange_ok : SqrRange_stmt D.
+Proof.
+  intros fuel kthr sthr cP P Hk Hs H1 H2.
+  exact (sqr_r_ok D OK fuel kthr sthr cP Hk Hs (2 * length P - 1)%nat P H1 H2 eq_refl).
+Qed.
+Lemma GcdExt_ok : GcdExt_stmt D.
+Proof.
+  intros kthr sthr A B Hk Hs.
+  pose proof (gcdext_divides D OK kthr sthr Hk Hs A B) as H1. pose proof (gcdext_bezout D OK kthr sthr A B Hk) as H2.
+  destruct (gcdext D kthr sthr A B) as [[F S0] T0]. destruct H1 as [HA HB]. split; [|exact H2].
+  split; [exact HA|split; [exact HB|]]. intros X HXA HXB.
+  eapply dvd_eqv. constructor. exact H2. apply (dvd_add D OK); apply (dvd_mul_l D OK); assumption.
+Qed.
+Lemma Gcd_ok : Gcd_stmt D.
+Proof. intros kthr sthr P Q Hk Hs. exact (gcd_is_gcd D OK kthr sthr Hk Hs P Q). Qed.
+Lemma Lcm_ok : Lcm_stmt D.
+Proof. intros kthr sthr A B Hk Hs. exact (lcm_common_multiple_full D OK kthr sthr Hk Hs A B). Qed.
+Lemma Invmod_ok : Invmod_stmt D.
+Proof. intros kthr sthr A B Hk Hs. exact (invmod_spec D OK kthr sthr Hk Hs A B). Qed.
+Lemma Modin_ok : Modin_stmt D.
+Proof. exact (modin_spec D OK). Qed.
+Lemma Powmod_ok : Powmod_stmt D.
+Proof. exact (powmod_full D OK). Qed.
+Lemma Midmul_ok : Midmul_stmt D.
+Proof.
+  intros thr P Q HQ HP. split; [|split].
+  - apply (midmul_spec D OK); assumption.
+  - apply (stdmidmul_spec D OK); assumption.
+  - intros E. apply (karamidmul_spec D OK); assumption.
+Qed.
+Lemma Pow_ok : Pow_stmt D. Proof. exact (pow_spec D OK). Qed.
+Lemma Fused_ok : Fused_stmt D. Proof. exact (fused_spec D OK). Qed.
+Lemma Scalar_ok : Scalar_stmt D. Proof. exact (scalar_spec D OK). Qed.
+Lemma EvalDiffRev_ok : EvalDiffRev_stmt D.
+Proof.
+  intros P v i. split; [|split; [|split]].
+  apply (eval_spec D OK). apply (diff_spec D OK). apply (reverse_spec D OK). intros b Hb. apply (power_compose_spec D OK). exact Hb.
+Qed.
+Lemma MulTrunc_ok : MulTrunc_stmt D. Proof. exact (mul_trunc_spec D OK). Qed.
+Lemma DivmodUnique_ok : DivmodUnique_stmt D.
+Proof. intros kthr sthr A B Q' R' Hk Hs. exact (divmod_unique D OK kthr sthr Hk Hs A B Q' R'). Qed.
+Lemma Decide_ok : Decide_stmt D.
+Proof.
+  intros kthr sthr P Q Hk Hs. split. apply (areEqual_spec D OK). apply (isDivisor_spec D OK kthr sthr Hk Hs).
+Qed.
+Lemma Pdivmod_ok : Pdivmod_stmt D.
+Proof. intros A B HZ. split. apply (pdivmod_spec D OK A B HZ). apply (pmod_spec D OK A B HZ). Qed.
+Lemma NormalResults_ok : NormalResults_stmt D.
+Proof.
+  intros kthr sthr e0 A B C v e n b l i j.
+  pose proof (divmod_n D OK kthr sthr A B) as [H1 H2]. pose proof (divmodin_n D OK kthr sthr A B) as [H3 H4].
+  pose proof (fused_n D OK kthr A B C C v) as [F1 [F2 [F3 [F4 [F5 [F6 F7]]]]]].
+  pose proof (misc_n D OK A v n b l) as [M1 [M2 [M3 [M4 [M5 [M6 [M7 [M8 [M9 [M10 [M11 [M12 M13]]]]]]]]]]]].
+  repeat match goal with |- _ /\ _ => split end;
+    first [ assumption | exact H2 | apply (mul_n D OK) | apply (stdmul_n D OK) | apply (karamul_n D OK) | apply (sd_normal D OK)
+          | apply (midmul_n D OK) | apply (mul_trunc_n D OK) | apply (div_n D OK) | apply (modin_n D OK) | apply (gcd_n D OK)
+          | apply (gcdext_n D OK) | apply (invmod_n D OK) | apply (lcm_n D OK) | apply (powmod_n D OK) | apply (pdivmod_n D OK)
+          | apply (pmod_n D OK) ].
+Qed.
 Lemma Normal_ok : Normal_stmt D.
 Proof.
   intros P. split. apply (setdegree_peq D OK). split. apply (setdegree_normal D OK). apply (isZero_spec D OK).
 Qed.
+Lemma Products_ok : Products_stmt D. Proof. split; [exact Mul_ok|split; [exact Stdmul_ok|exact Karamul_ok]]. Qed.
+Lemma Squaring_ok : Squaring_stmt D. Proof. split; [exact Sqr_ok|exact SqrRange_ok]. Qed.
+Lemma MidTrunc_ok : MidTrunc_stmt D. Proof. split; [exact Midmul_ok|exact MulTrunc_ok]. Qed.
+Lemma DivisionAll_ok : DivisionAll_stmt D.
+Proof. split; [exact DivisionIdentity_ok|split; [exact Division_ok|split; [exact DivmodUnique_ok|exact Modin_ok]]]. Qed.
+Lemma Euclid_ok : Euclid_stmt D. Proof. split; [exact GcdExt_ok|split; [exact Gcd_ok|split; [exact Lcm_ok|exact Invmod_ok]]]. Qed.
+Lemma Powers_ok : Powers_stmt D. Proof. split; [exact Pow_ok|exact Powmod_ok]. Qed.
+Lemma Linear_ok : Linear_stmt D. Proof. split; [exact AddSub_ok|split; [exact Scalar_ok|exact Fused_ok]]. Qed.
+Lemma NormalDecide_ok : NormalDecide_stmt D. Proof. split; [exact Normal_ok|split; [exact Decide_ok|exact NormalResults_ok]]. Qed.
 End Lemmas.
 
 (* the hypotheses are satisfiable: GF(2) on bool *)
@@ -119,3 +295,29 @@ Proof.
   - discriminate.
   - apply H. reflexivity.
 Qed.
+
+(* instances / witnesses: the hypotheses of the new statements are satisfiable over GF(2) *)
+Example GF2_division_instance : Division_stmt GF2Dom.
+Proof. exact (Division_ok GF2Dom GF2_ok). Qed.
+Example GF2_division_run :      (* X^3 + X + 1 = (X + 1) * (X^2 + X) + 1 *)
+  divmod GF2Dom 1 1 [true; true; false; true] [true; true] = ([false; true; true], [true]).
+Proof. reflexivity. Qed.
+Example GF2_gcdext_run :        (* gcd(X^2 + 1, X + 1) = X + 1 = 0 * A + 1 * B *)
+  gcdext GF2Dom 1 1 [true; false; true] [true; true] = ([true; true], [], [true]).
+Proof. reflexivity. Qed.
+Example GF2_invmod_hyp : (1 <= degree GF2Dom [true; true; true])%Z /\ (1 <= degree GF2Dom [false; true])%Z /\
+  invmod GF2Dom 1 1 [false; true] [true; true; true] = [true; true].     (* X * (X + 1) = 1 mod X^2 + X + 1 *)
+Proof. repeat split; try reflexivity; cbv; discriminate. Qed.
+Example GF2_modin_hyp : normal GF2Dom [true; true] /\ [true; true] <> [] /\ modin GF2Dom [true; true; false; true] [true; true] = [true].
+Proof. split; [right; cbn; discriminate | split; [discriminate | reflexivity]]. Qed.
+Example GF2_powmod_run :        (* X^5 mod X^2 + X + 1 = X + 1 *)
+  powmod GF2Dom 1 1 false [false; true] 5%N [true; true; true] = [true; true] /\ powmod GF2Dom 1 1 true [true] 0%N [true] = [].
+Proof. split; reflexivity. Qed.
+(* the code returns 1 for exponent 0 also when the modulus is a non-zero constant (every remainder modulo a unit is 0) *)
+Lemma Powmod_e0_unit_refuted : ~ Powmod_e0_unit_stmt GF2Dom.
+Proof. intros H. specialize (H 1%nat 1%nat [true] [true] eq_refl). cbv in H. discriminate. Qed.
+Example GF2_midmul_run :        (* (1 + X + X^2)(1 + X) = 1 + X^3: the middle coefficients 1..2 are 0, 0 *)
+  midmul GF2Dom 1 [true; true; true] [true; true] = [] /\ stdmidmul_r GF2Dom [true; true; true] [true; true] = [false; false].
+Proof. split; reflexivity. Qed.
+Example GF2_midmul_instance : Midmul_stmt GF2Dom.
+Proof. exact (Midmul_ok GF2Dom GF2_ok). Qed.
